@@ -96,7 +96,9 @@ CHECKS["C03"] = (
     "aimed at each slot (value, element, dict key, dict value, nested attribute, container family); after every operation every "
     "managed attribute stored in every live instance (recursively through nested spec instances, containers and keyed containers) is "
     "checked by vlib/refcheck.py against the harness's own type terms. Operations whose conforming twin succeeds are re-issued with "
-    "exactly one slot made non-conforming and must raise TypeError/ValueError or leave a conforming state.",
+    "exactly one slot made non-conforming and must raise TypeError/ValueError or leave a conforming state. Directed: non-conforming "
+    "defaults restored by del/reset/invalidation; closed and open bounded floats as attribute, list element and dict value x 18 routes x "
+    "{NaN, +-inf, just outside} judged by the bound written as plain comparisons.",
     "Trusted: reference checker and type terms in vlib/classgen.py. Direct mutation of contained containers is out of scope.",
     "DESIGN.md §3 C03",
 )
@@ -143,7 +145,9 @@ CHECKS["C05"] = (
     "On states reached by random histories over generated classes, every scalar/top-level helper form is judged either against the "
     "model (addressed attribute = prepared new value, collections normalised, nested keywords built/merged, invalidated_by dependants "
     "back at default, everything else untouched) or by running two documented-equivalent formulations on two replayed copies of the same "
-    "state and comparing outcome class, resulting state and result identity.",
+    "state and comparing outcome class, resulting state and result identity. Directed: constant whole-value transforms; multi-change "
+    "calls (transform/update, top-level and nested keyword forms) on a chain of invalidated_by attributes must equal the single-attribute "
+    "helpers applied in keyword order, for every ordered selection of 2-3 names, copy and in place, eager and lazy.",
     "Trusted: the model in checks/c05.py (pure idempotent preparers); replay determinism. UNSPECIFIED forms (DESIGN.md §4) are counted, not judged.",
     "DESIGN.md §3 C05",
 )
@@ -237,8 +241,9 @@ CHECKS["C16"] = (
     "present before decoration must map to the identical object at both later stages (managed Attr/Field declarations consumed), the "
     "occupied member must still behave as written, the set of added names must equal the model (4 scalar helpers per owned attribute, "
     "4 element helpers per collection under the table singular, top-level helpers, dunders per switches, aliases) minus occupied ones. "
-    "Directed cases: attrs with private names -> ValueError; child/children and num/nums collisions -> <attr>_item; double collision "
-    "-> RuntimeError.",
+    "Directed cases: attrs with private names -> ValueError; child/children and num/nums collisions -> <attr>_item; two collections "
+    "with one natural singular that is no attribute (both orders) -> distinct item names, each helper set editing its own attribute; "
+    "double collision -> RuntimeError.",
     "Trusted: naming model and singular table in checks/c16.py. __new__ (lazy residue) and a created __annotations__ are tolerated. More than one singular-name collision per class through multiple inheritance is not judged.",
     "DESIGN.md §3 C16",
 )
